@@ -229,26 +229,36 @@ def reproduced(vcinfo, label, res):
 
 
 def crosscheck(work, exports, limit):
-    """re-decide exported VCs with z3 4.8.12 and cvc5"""
+    """re-decide exported VCs with z3 4.8.12 and cvc5 (in parallel, 30 s each)"""
+    from concurrent.futures import ThreadPoolExecutor
     out = {'checked': 0, 'agree': 0, 'disagree': [], 'skipped': 0}
+    tasks = []
     for i, (label, verdict, smt) in enumerate(exports[:limit]):
         p = f'{work}/x_{i}.smt2'
         open(p, 'w').write('(set-logic ALL)\n' + smt)
-        for tool, cmd in (('z3-4.8.12', ['/usr/bin/z3', '-T:60', p]), ('cvc5', ['cvc5', '--tlimit=60000', p])):
-            try:
-                pr = subprocess.run(cmd, capture_output=True, text=True, timeout=90)
-                txt = pr.stdout.strip().split('\n')
-            except subprocess.TimeoutExpired:
-                out['skipped'] += 1
-                continue
-            if any('(error' in l for l in txt) or not txt or txt[0] not in ('sat', 'unsat'):
+        tasks.append((label, verdict, 'z3-4.8.12', ['/usr/bin/z3', '-T:30', p]))
+        tasks.append((label, verdict, 'cvc5', ['cvc5', '--tlimit=30000', p]))
+
+    def run(t):
+        label, verdict, tool, cmd = t
+        try:
+            pr = subprocess.run(cmd, capture_output=True, text=True, timeout=45)
+            txt = pr.stdout.strip().split('\n')
+        except subprocess.TimeoutExpired:
+            return (t, None)
+        if any('(error' in l for l in txt) or not txt or txt[0] not in ('sat', 'unsat'):
+            return (t, None)
+        return (t, txt[0])
+    with ThreadPoolExecutor(max_workers=12) as ex:
+        for (label, verdict, tool, cmd), res in ex.map(run, tasks):
+            if res is None:
                 out['skipped'] += 1
                 continue
             out['checked'] += 1
-            if txt[0] == verdict:
+            if res == verdict:
                 out['agree'] += 1
             else:
-                out['disagree'].append({'label': label, 'tool': tool, 'z3py': verdict, 'other': txt[0]})
+                out['disagree'].append({'label': label, 'tool': tool, 'z3py': verdict, 'other': res})
     return out
 
 
@@ -296,6 +306,7 @@ def main():
 
 def run_check(cid, chk, tier, seed, work, only, jobs, t0):
     pkgs = chk['pkgs']
+    build.run_generators(chk.get('gen'), work)
     insts = chk['instances'](tier)
     if only:
         insts = [i for i in insts if only in i[1] + '(' + ','.join(str(x) for x in i[2]) + ')']
